@@ -3,7 +3,7 @@
 From Coq Require Import List ZArith Bool QArith.
 From Coq.Strings Require Import Byte.
 Import ListNotations.
-From SV Require Import Text C04_PySlice C04_Model C04_Lemmas C04_Str C04_Store.
+From SV Require Import Text C04_PySlice C04_Model C04_Lemmas C04_Str C04_Store C04_Str7.
 Local Open Scope Z_scope.
 
 (* ---- pyslice_spec: CPython slice normalisation, for every list, every bound in Z or None ---- *)
@@ -552,6 +552,106 @@ Theorem C04_store_slice : forall st k gap ix s, nth_error st k = Some s ->
 Proof. exact dstep_slice. Qed.
 Print Assumptions C04_store_slice.
 
+(* ---- round 7: the remaining methods of the namespace as list functions ---- *)
+(* removeprefix / removesuffix cut exactly one leading / trailing copy, and nothing otherwise *)
+Theorem C04_str_remove_affix : forall s p,
+  ((forall t, s = p ++ t -> py_removeprefix s p = t) /\
+   (prefixb p s = false -> py_removeprefix s p = s) /\
+   (exists t, s = (if prefixb p s then p else []) ++ t /\ py_removeprefix s p = t)) /\
+  ((forall t, s = t ++ p -> py_removesuffix s p = t) /\
+   (prefixb (rev p) (rev s) = false -> py_removesuffix s p = s) /\
+   (exists t, s = t ++ (if prefixb (rev p) (rev s) then p else []) /\ py_removesuffix s p = t)).
+Proof. exact (fun s p => conj (removeprefix_spec s p) (removesuffix_spec s p)). Qed.
+Print Assumptions C04_str_remove_affix.
+
+(* isalpha: non-empty and letters only; isascii; on letters-only strings isupper / islower are fixpoints of upper / lower *)
+Theorem C04_str_predicates : forall s,
+  (py_isalpha s = true <-> s <> [] /\ forall c, In c s -> is_alpha c = true) /\
+  (py_isascii s = true <-> forall c, In c s -> is_ascii c = true) /\
+  (py_isalpha s = true -> py_isascii s = true /\ (py_isupper s = true <-> py_upper s = s) /\ (py_islower s = true <-> py_lower s = s)).
+Proof. exact isalpha_spec. Qed.
+Print Assumptions C04_str_predicates.
+
+(* split / rsplit with a separator, every maxsplit: joining the pieces with the separator gives the string back,
+   there is at least one piece and at most maxsplit + 1; an empty separator is a ValueError *)
+Theorem C04_str_split_sep : forall s sep ms,
+  (sep <> [] ->
+   (exists l, py_split s (Some sep) ms = Ok l /\ join sep l = s /\ l <> [] /\
+              (forall k, lim_of ms = Some k -> (length l <= S k)%nat)) /\
+   (exists l, py_rsplit s (Some sep) ms = Ok l /\ join sep l = s /\ l <> [] /\
+              (forall k, lim_of ms = Some k -> (length l <= S k)%nat))) /\
+  py_split s (Some []) ms = Err ValueError /\ py_rsplit s (Some []) ms = Err ValueError.
+Proof. exact (fun s sep ms => conj (fun H => conj (py_split_sep_spec s sep ms H) (py_rsplit_sep_spec s sep ms H)) (py_split_empty_sep s ms)). Qed.
+Print Assumptions C04_str_split_sep.
+
+(* split() on white space: the pieces are non-empty, free of white space, and together all other characters in order *)
+Theorem C04_str_split_ws : forall s,
+  exists l, py_split s None None = Ok l /\ concat l = filter nonws s /\
+            Forall (fun p => p <> [] /\ forallb nonws p = true) l.
+Proof. exact py_split_ws_spec. Qed.
+Print Assumptions C04_str_split_ws.
+
+(* splitlines: with keepends the lines concatenate to the string; without, no line holds a line break and together
+   they are all other characters in order *)
+Theorem C04_str_splitlines : forall s,
+  concat (py_splitlines s true) = s /\
+  Forall (fun p => forallb nonlb p = true) (py_splitlines s false) /\
+  concat (py_splitlines s false) = filter nonlb s.
+Proof. exact py_splitlines_spec. Qed.
+Print Assumptions C04_str_splitlines.
+
+(* maketrans(x, y, z) + translate: ValueError iff the lengths differ; z deletes; other characters are kept; the LAST
+   occurrence of a character in x decides (dict assignment overwrites) *)
+Theorem C04_str_maketrans : forall x y z,
+  (length x <> length y -> py_maketrans x y z = Err ValueError) /\
+  (length x = length y -> exists t, py_maketrans x y z = Ok t /\
+     (forall c, In c z -> translate_tbl [c] t = []) /\
+     (forall c, ~ In c z -> ~ In c x -> translate_tbl [c] t = [c]) /\
+     (forall c b x1 x2 y1 y2, ~ In c z -> x = x1 ++ c :: x2 -> y = y1 ++ b :: y2 -> length x1 = length y1 -> ~ In c x2 ->
+        translate_tbl [c] t = [b])) /\
+  (forall t a b, translate_tbl (a ++ b) t = translate_tbl a t ++ translate_tbl b t).
+Proof. exact (fun x y z => conj (proj1 (maketrans_spec x y z)) (conj (proj2 (maketrans_spec x y z)) (fun t a b => translate_tbl_app t a b))). Qed.
+Print Assumptions C04_str_maketrans.
+
+Theorem C04_str_tailmatch_tuple : forall s ps a b,
+  (py_startswith_any s ps a b = true <-> exists p, In p ps /\ py_startswith s p a b = true) /\
+  (py_endswith_any s ps a b = true <-> exists p, In p ps /\ py_endswith s p a b = true).
+Proof. exact tailmatch_any_spec. Qed.
+Print Assumptions C04_str_tailmatch_tuple.
+
+(* ---- round 7: gap-aware subscripts with ANY step, as the code is ---- *)
+(* start and stop (residue numbers) are replaced by columns, the step is applied to columns; the constructor upper-cases *)
+Theorem C04_gap_any_step_as_is : forall g s sl ng len i,
+  seq_getitem (Some g) s (ISlice sl) =
+  match getslice (data s) (mkslice (adj (nogaps g (data s)) (Z.of_nat (length (data s))) (sl_start sl))
+                                   (adj (nogaps g (data s)) (Z.of_nat (length (data s))) (sl_stop sl)) (sl_step sl)) with
+  | Ok d => Ok (mkseq (py_upper d) (sid s))
+  | Err e => Err e
+  end /\
+  adj ng len None = None /\
+  (0 <= i < Z.of_nat (length ng) -> adj ng len (Some i) = Some (nth (Z.to_nat i) ng len)) /\
+  (Z.of_nat (length ng) <= i -> adj ng len (Some i) = Some len) /\
+  (- Z.of_nat (length ng) <= i < 0 -> adj ng len (Some i) = Some (nth (Z.to_nat (i + Z.of_nat (length ng))) ng len)) /\
+  (i < - Z.of_nat (length ng) -> adj ng len (Some i) = Some (nth O ng len)).
+Proof. exact (fun g s sl ng len i => conj (gap_any_step_as_is g s sl) (adj_cases ng len i)). Qed.
+Print Assumptions C04_gap_any_step_as_is.
+
+(* "same residues as slicing the degapped string" survives for the whole sequence reversed ... *)
+Theorem C04_gap_reverse_whole : forall g s,
+  seq_getitem (Some g) s (ISlice (mkslice None None (Some (-1)))) = Ok (mkseq (py_upper (rev (data s))) (sid s)) /\
+  degap g (rev (data s)) = rev (degap g (data s)) /\
+  pyget (degap g (data s)) (ISlice (mkslice None None (Some (-1)))) = Ok (degap g (rev (data s))).
+Proof. exact gap_reverse_whole. Qed.
+Print Assumptions C04_gap_reverse_whole.
+
+(* ... and is REFUTED in general: 'A-CG'.sl(gap='-')[::2] = 'AC' (degapped: 'ACG'[::2] = 'AG'), and without any gap
+   'ACG'.sl(gap='-')[:-100:-1] = 'GC' ('ACG'[:-100:-1] = 'GCA') *)
+Theorem C04_gap_step_refuted :
+  ~ gap_slice_same_residues (bs "-"%bs) (mkseq (bs "A-CG"%bs) (bs "x"%bs)) (mkslice None None (Some 2)) /\
+  ~ gap_slice_same_residues (bs "-"%bs) (mkseq (bs "ACG"%bs) (bs "x"%bs)) (mkslice None (Some (-100)) (Some (-1))).
+Proof. exact gap_step_refuted. Qed.
+Print Assumptions C04_gap_step_refuted.
+
 (* ---- non-vacuity ---- *)
 Example C04_witness_slice : getslice (bs "A-CG--T"%bs) (mkslice (Some (-5)) (Some 9) None) = Ok (bs "CG--T"%bs) /\
   getslice (bs "ACGTN"%bs) (mkslice (Some 9) (Some (-9)) (Some (-2))) = Ok (bs "NGA"%bs) /\
@@ -626,3 +726,29 @@ Example C04_witness_ft :
     [(Some (bs "gene"%bs), (0, 18)); (Some (bs "pseudogene"%bs), (4, 10))] (bs "pseudogene"%bs)
   = Ok (mkseq (bs "TGCAAG"%bs) (bs "x"%bs)).
 Proof. exact (conj eq_refl (conj eq_refl (conj eq_refl (eq_refl)))). Qed.
+
+(* round 7 *)
+Example C04_witness_str7 :
+  py_split (bs " a  b c "%bs) None (Some 1) = Ok [bs "a"%bs; bs "b c "%bs] /\
+  py_rsplit (bs " a  b c "%bs) None (Some 1) = Ok [bs " a  b"%bs; bs "c"%bs] /\
+  py_split (bs "AAA"%bs) (Some (bs "AA"%bs)) None = Ok [[]; bs "A"%bs] /\
+  py_rsplit (bs "AAA"%bs) (Some (bs "AA"%bs)) None = Ok [bs "A"%bs; []] /\
+  py_split (bs "A-C-G"%bs) (Some (bs "-"%bs)) (Some 1) = Ok [bs "A"%bs; bs "C-G"%bs] /\
+  py_split [] None None = Ok [] /\ py_split [] (Some (bs "-"%bs)) None = Ok [[]] /\
+  py_splitlines [x41; x0d; x0a; x43; x0a; x0d; x47; x0a] false = [bs "A"%bs; bs "C"%bs; []; bs "G"%bs] /\
+  py_splitlines [x41; x0d; x0a; x43] true = [[x41; x0d; x0a]; bs "C"%bs] /\
+  py_removeprefix (bs "ACAC"%bs) (bs "AC"%bs) = bs "AC"%bs /\ py_removesuffix (bs "ACGT"%bs) (bs "T"%bs) = bs "ACG"%bs /\
+  py_removesuffix (bs "ACGT"%bs) (bs "A"%bs) = bs "ACGT"%bs /\
+  py_isalpha (bs "ACgt"%bs) = true /\ py_isalpha (bs "AC-"%bs) = false /\ py_isalpha [] = false /\ py_isascii [] = true /\
+  str_edit (ETransMk (bs "AAC"%bs) (bs "xyz"%bs) (bs "G"%bs)) (bs "ACGT"%bs) = Ok (bs "yzT"%bs) /\
+  str_edit (ETransMk (bs "A"%bs) (bs "xy"%bs) []) (bs "ACGT"%bs) = Err ValueError.
+Proof. exact (conj eq_refl (conj eq_refl (conj eq_refl (conj eq_refl (conj eq_refl (conj eq_refl (conj eq_refl (conj eq_refl (conj eq_refl (conj eq_refl (conj eq_refl (conj eq_refl (conj eq_refl (conj eq_refl (conj eq_refl (conj eq_refl (conj eq_refl eq_refl))))))))))))))))). Qed.
+
+Example C04_witness_slice7 :
+  (* a sequence holding lower case: its slice comes back upper-cased; gap-aware with step 2 counts columns *)
+  seq_getitem None (mkseq (bs "ACgtT"%bs) (bs "x"%bs)) (ISlice (mkslice (Some 1) (Some 4) None)) = Ok (mkseq (bs "CGT"%bs) (bs "x"%bs)) /\
+  seq_getitem (Some (bs "-"%bs)) (mkseq (bs "A-CG"%bs) (bs "x"%bs)) (ISlice (mkslice None None (Some 2))) = Ok (mkseq (bs "AC"%bs) (bs "x"%bs)) /\
+  pyget (degap (bs "-"%bs) (bs "A-CG"%bs)) (ISlice (mkslice None None (Some 2))) = Ok (bs "AG"%bs) /\
+  store_final (mk_store [bs "ACGT"%bs]) [DEdit 0 ELower; DSlice 0 None (ISlice (mkslice (Some 1) None None)); DSliceIn 0 None (IInt 0)]
+  = [mkseq (bs "A"%bs) (bs "o0"%bs); mkseq (bs "CGT"%bs) (bs "o0"%bs); mkseq (bs "A"%bs) (bs "o0"%bs)].
+Proof. exact (conj eq_refl (conj eq_refl (conj eq_refl eq_refl))). Qed.
